@@ -2,7 +2,7 @@
    process crashed) evaluated by vm_compute; they satisfy the hypotheses of the theorems and all
    three running processes reach Decide. *)
 From Coq Require Import List NArith Arith Bool Lia.
-From Charon Require Import Common.Quorum Qbft.Model Qbft.ModelFacts Qbft.GoodRound Qbft.GoodRoundFacts.
+From Charon Require Import Common.Quorum Qbft.Model Qbft.ModelFacts Qbft.GoodRound Qbft.GoodRoundFacts Qbft.GoodRoundQrc.
 Import ListNotations.
 
 (* ------------------------------------------------------------------------------------------ *)
@@ -21,6 +21,11 @@ Definition cands (s : state) (m : msg) : list oracle :=
     mko QCommits (first_per_src (f_trv Commit (rnd b) (val b)) all) 0;
     mko JustDecided [] 0;
     mko QRC (first_per_src (f_rc_null (rnd b)) all) 0;
+    (* a prepared value: ROUND-CHANGEs up to the highest prepared round + the PREPAREs of that key *)
+    (let nn := filter (fun x => negb (is_null x)) (filter (f_rc (rnd b)) all) in
+     let best := fold_left (fun acc x => if pr acc <? pr x then x else acc) nn (hd b nn) in
+     mko QRC (first_per_src (fun x => f_rc (rnd b) x && (pr x <=? pr best)) all
+              ++ first_per_src (f_trv Prepare (pr best) (pv best)) all) 0);
     mko UnjustQRC [] 0; mko Nothing [] 0 ].
 
 Fixpoint first_ok (i : nat) (s : state) (m : msg) (os : list oracle) : option (state * list output) :=
@@ -174,4 +179,349 @@ Proof.
   - apply fifo_ok_simple.
     + intros i Hi. pattern i. apply in_R4; [| | |exact Hi]; vm_compute; reflexivity.
     + intros i Hi. pattern i. apply in_R4; [| | |exact Hi]; vm_compute; lia.
+Qed.
+
+(* ------------------------------------------------------------------------------------------ *)
+(* Round 2 after a timeout: the round-1 leader (process 1) never got its input, every running   *)
+(* process timed out and broadcast ROUND-CHANGE(2); the leader of round 2 is process 2 (input 9) *)
+
+Definition run_evs (i : nat) (s : state) (evs : list event) : state :=
+  fold_left (fun s e => match fstep (pp 4 64 ld4 i) s e o0 with Some (s', _) => s' | None => s end) evs s.
+
+Definition st2 (i : nat) : state :=
+  run_evs i init (if i =? 2 then [EStart; EInput 9; ETimeout] else [EStart; ETimeout]).
+
+Definition rc2 (i : nat) : msg := mkm (mk RoundChange i 2 0 0 0) [].
+
+Example timeout_broadcasts_rc :
+  fstep (pp 4 64 ld4 0) (run_evs 0 init [EStart]) ETimeout o0
+  = Some (st2 0, [RoundChg 1 2 RoundTimeout; StopTimer; NewTimer 2; Bcast (mk RoundChange 0 2 0 0 0) []]).
+Proof. vm_compute. reflexivity. Qed.
+
+Definition g2_0 : gcfg := mkg st2 [rc2 0; rc2 1; rc2 2] (fun _ => []) [].
+
+(* pool: 0..2 = ROUND-CHANGEs, then the PRE-PREPARE(2) of process 2, PREPAREs, COMMITs *)
+Definition sched2 : list (nat * nat) :=
+  [(0,1); (2,0); (1,2); (2,2); (0,0); (2,1); (1,0); (1,1); (0,2); (2,2);
+   (1,3); (0,3); (1,4); (2,3); (0,4); (0,5); (0,6); (1,5); (1,6); (2,4); (2,5); (2,6); (2,0);
+   (0,7); (1,7); (2,7); (0,8); (1,8); (2,8); (0,9); (1,9); (2,9)].
+
+Definition g2_end : gcfg := match gexec 4 64 ld4 R4 g2_0 sched2 with Some g => g | None => g2_0 end.
+
+Example ex2_run : gexec 4 64 ld4 R4 g2_0 sched2 = Some g2_end.
+Proof. vm_compute. reflexivity. Qed.
+
+Example ex2_decides : gdecs g2_end = [(0, 9%N, 2); (1, 9%N, 2); (2, 9%N, 2)] /\ delivered_all_b R4 g2_end = true.
+Proof. vm_compute. split; reflexivity. Qed.
+
+Lemma in_pool2 : forall m (P : msg -> Prop), P (rc2 0) -> P (rc2 1) -> P (rc2 2) -> In m (pool g2_0) -> P m.
+Proof. intros m P H0 H1 H2 [<-|[<-|[<-|[]]]]; assumption. Qed.
+
+Lemma ex2_pool_ok : pool_ok ld4 2 (pool g2_0).
+Proof.
+  constructor.
+  - intros m Hm. pattern m. apply in_pool2; [| | |exact Hm]; simpl; lia.
+  - intros m Hm. pattern m. apply in_pool2; [| | |exact Hm]; discriminate.
+  - intros m m' Hm Hm'. pattern m. apply in_pool2; [| | |exact Hm]; discriminate.
+  - intros m b Hm. pattern m. apply in_pool2; [| | |exact Hm]; intros [].
+Qed.
+
+Lemma ex2_start_ok : forall i, In i R4 -> start_ok 2 (pool g2_0) i (gst g2_0 i).
+Proof.
+  intros i Hi. pattern i. apply in_R4; [| | |exact Hi];
+    (constructor; try (vm_compute; reflexivity); try (intros k; vm_compute; reflexivity);
+     try (intros b Hb; vm_compute in Hb; destruct Hb); try (intro Hx; vm_compute in Hx; discriminate)).
+Qed.
+
+Lemma ex2_pool_fresh : pool_fresh ld4 2 (pool g2_0).
+Proof.
+  constructor.
+  - intros m Hm. pattern m. apply in_pool2; [| | |exact Hm]; reflexivity.
+  - intros m b Hm. pattern m. apply in_pool2; [| | |exact Hm]; intros [<-|[]]; discriminate.
+  - intros m b Hm. pattern m. apply in_pool2; [| | |exact Hm]; intros [].
+  - intros m m' Hm Hm'. pattern m. apply in_pool2; [| | |exact Hm];
+      pattern m'; apply in_pool2; [| | |exact Hm'| | | |exact Hm'| | | |exact Hm']; simpl; intros; auto; discriminate.
+Qed.
+
+Lemma ex2_leader_ok : leader_ok 4 64 ld4 2 (pool g2_0) (gst g2_0 (ld4 2)).
+Proof.
+  constructor.
+  - vm_compute. discriminate.
+  - vm_compute. reflexivity.
+  - intros _. split; [vm_compute; reflexivity|]. split; [exact ex2_pool_fresh|].
+    constructor.
+    + intros b Hb. vm_compute in Hb. destruct Hb.
+    + intros m b Hm. vm_compute in Hm. destruct Hm.
+    + intros m Hm. vm_compute in Hm. destruct Hm.
+  - intro Hx. vm_compute in Hx. discriminate.
+Qed.
+
+Lemma ex2_rcs : rcs_in_pool 4 64 ld4 2 R4 (pool g2_0).
+Proof.
+  intros i Hi. pattern i. apply in_R4; [| | |exact Hi].
+  - exists (rc2 0). split; [left; reflexivity|]. repeat split; vm_compute; reflexivity.
+  - exists (rc2 1). split; [right; left; reflexivity|]. repeat split; vm_compute; reflexivity.
+  - exists (rc2 2). split; [right; right; left; reflexivity|]. repeat split; vm_compute; reflexivity.
+Qed.
+
+(* the hypotheses of good_round_qrc are satisfiable (round 2, leader = process 2) *)
+Example ex2_theorem_applies :
+  exists v, (forall i, In i R4 -> exists k, In (i, v, k) (gdecs g2_end))
+            /\ (forall i x k, In (i, x, k) (gdecs g2_end) -> x = v /\ k = 2).
+Proof.
+  apply (good_round_qrc 4 64 ld4 R4 2 (ltac:(lia)) g2_0 g2_end).
+  - repeat constructor; simpl; intuition discriminate.
+  - vm_compute. lia.
+  - vm_compute. auto.
+  - exact ex2_pool_ok.
+  - exact ex2_start_ok.
+  - exact ex2_leader_ok.
+  - exact ex2_rcs.
+  - reflexivity.
+  - reflexivity.
+  - apply (gexec_sound 4 64 ld4 R4 sched2). exact ex2_run.
+  - apply delivered_all_b_sound. vm_compute. reflexivity.
+  - apply fifo_ok_simple.
+    + intros i Hi. pattern i. apply in_R4; [| | |exact Hi]; vm_compute; reflexivity.
+    + intros i Hi. pattern i. apply in_R4; [| | |exact Hi]; vm_compute; lia.
+Qed.
+
+(* ------------------------------------------------------------------------------------------ *)
+(* Executable forms of the hypotheses (sound, used to discharge them by vm_compute)            *)
+
+Section Checkers.
+Variables (n fifo_ : nat) (ld : nat -> nat) (r : nat).
+
+Definition pcb (b : bmsg) : bool := (rnd b =? r) && (is_ty Prepare b || is_ty Commit b).
+Definition has_main_b (P : list msg) (b : bmsg) : bool := existsb (fun m => beq (main m) b) P.
+
+Lemma pcb_spec : forall b, pc r b -> pcb b = true.
+Proof.
+  intros b [H1 H2]. unfold pcb, is_ty. rewrite H1, Nat.eqb_refl. destruct H2 as [->| ->]; reflexivity.
+Qed.
+
+Lemma has_main_b_sound : forall P b, has_main_b P b = true -> has_main P b.
+Proof.
+  intros P b H. apply existsb_exists in H. destruct H as [m [H1 H2]]. apply beq_eq in H2. exists m. auto.
+Qed.
+
+Definition nest_ok_b (P : list msg) (bs : list bmsg) : bool :=
+  forallb (fun b => negb (pcb b) || has_main_b P b) bs.
+
+Lemma nest_ok_b_sound : forall P bs, nest_ok_b P bs = true -> forall b, In b bs -> pc r b -> has_main P b.
+Proof.
+  intros P bs H b Hb Hp. unfold nest_ok_b in H. rewrite forallb_forall in H. specialize (H b Hb).
+  rewrite (pcb_spec b Hp) in H. simpl in H. apply has_main_b_sound. exact H.
+Qed.
+
+Definition pool_ok_b (P : list msg) : bool :=
+  forallb (fun m => (rnd (main m) <=? r) && (negb (is_ty Decided (main m)) || (rnd (main m) =? r))) P
+  && forallb (fun m => forallb (fun m' => negb (carrier ld r (main m) && carrier ld r (main m'))
+                                         || N.eqb (val (main m)) (val (main m'))) P) P
+  && forallb (fun m => nest_ok_b P (just m)) P.
+
+Lemma pool_ok_b_sound : forall P, pool_ok_b P = true -> pool_ok ld r P.
+Proof.
+  intros P H. unfold pool_ok_b in H. rewrite !andb_true_iff in H. destruct H as [[H1 H2] H3].
+  rewrite forallb_forall in H1, H2, H3. constructor.
+  - intros m Hm. specialize (H1 m Hm). apply andb_true_iff in H1. destruct H1 as [H1 _]. apply Nat.leb_le. exact H1.
+  - intros m Hm Ht. specialize (H1 m Hm). apply andb_true_iff in H1. destruct H1 as [_ H1].
+    unfold is_ty in H1. rewrite Ht in H1. simpl in H1. apply Nat.eqb_eq. exact H1.
+  - intros m m' Hm Hm' C1 C2. specialize (H2 m Hm). rewrite forallb_forall in H2. specialize (H2 m' Hm').
+    rewrite C1, C2 in H2. simpl in H2. apply N.eqb_eq. exact H2.
+  - intros m b Hm Hb Hp. eapply nest_ok_b_sound; eauto.
+Qed.
+
+Definition start_ok_b (P : list msg) (i : nat) (s : state) : bool :=
+  (round s =? r) && started s && negb (dead s) && negb (decided s)
+  && (negb (is_dup s JustPrePrepare r)
+      || existsb (fun m => is_ty Prepare (main m) && (src (main m) =? i) && (rnd (main m) =? r)
+                           && (pr (main m) =? 0) && N.eqb (pv (main m)) 0
+                           && match just m with [] => true | _ => false end) P)
+  && (negb (is_dup s QPrepares r)
+      || existsb (fun m => is_ty Commit (main m) && (src (main m) =? i) && (rnd (main m) =? r)
+                           && (pr (main m) =? 0) && N.eqb (pv (main m)) 0
+                           && match just m with [] => true | _ => false end) P)
+  && negb (existsb (fun k => rule_eqb (fst k) QCommits && (snd k =? r)) (dedup s))
+  && negb (existsb (fun k => rule_eqb (fst k) JustDecided) (dedup s))
+  && nest_ok_b P (flat (buffer s)).
+
+Lemma sent_b_sound : forall P t i, 
+  existsb (fun m => is_ty t (main m) && (src (main m) =? i) && (rnd (main m) =? r)
+                    && (pr (main m) =? 0) && N.eqb (pv (main m)) 0
+                    && match just m with [] => true | _ => false end) P = true ->
+  exists x, In (mkm (mk t i r x 0 0) []) P.
+Proof.
+  intros P t i H. apply existsb_exists in H. destruct H as [[[t0 s0 r0 v0 p0 w0] j] [H1 H2]]. simpl in H2.
+  rewrite !andb_true_iff in H2. destruct H2 as [[[[[A B] C] D] E] F].
+  apply mtype_eqb_eq in A. apply Nat.eqb_eq in B, C, D. apply N.eqb_eq in E. simpl in *. subst.
+  destruct j; [|discriminate]. exists v0. exact H1.
+Qed.
+
+Lemma start_ok_b_sound : forall P i s, start_ok_b P i s = true -> start_ok r P i s.
+Proof.
+  intros P i s H. unfold start_ok_b in H. rewrite !andb_true_iff in H.
+  destruct H as [[[[[[[[H1 H2] H3] H4] H5] H6] H7] H8] H9].
+  apply Nat.eqb_eq in H1. apply negb_true_iff in H3, H4, H7, H8. constructor; auto.
+  - intro Hd. rewrite Hd in H5. simpl in H5. apply sent_b_sound. exact H5.
+  - intro Hd. rewrite Hd in H6. simpl in H6. apply sent_b_sound. exact H6.
+  - intro k. unfold is_dup. apply not_true_is_false. intro E.
+    apply existsb_exists in E. destruct E as [x [X1 X2]]. apply andb_true_iff in X2. destruct X2 as [X2 _].
+    assert (existsb (fun k => rule_eqb (fst k) JustDecided) (dedup s) = true) by (apply existsb_exists; eauto).
+    congruence.
+  - intros b Hb Hp. eapply nest_ok_b_sound; eauto.
+Qed.
+
+Definition prep_wf (b : bmsg) : bool := negb (is_ty Prepare b) || ((1 <=? rnd b) && negb (N.eqb (val b) 0)).
+
+Lemma prep_wf_sound : forall b, prep_wf b = true -> ty b = Prepare -> 1 <= rnd b /\ val b <> 0%N.
+Proof.
+  intros b H Ht. unfold prep_wf, is_ty in H. rewrite Ht in H. simpl in H. apply andb_true_iff in H.
+  destruct H as [H1 H2]. apply negb_true_iff, N.eqb_neq in H2. split; [|exact H2].
+  destruct (rnd b); [discriminate | lia].
+Qed.
+
+Definition pool_fresh_b (P : list msg) : bool :=
+  forallb (fun m => negb (carrier ld r (main m))) P
+  && forallb (fun m => forallb prep_wf (main m :: just m)) P
+  && forallb (fun m => forallb (fun b => negb (f_rc r b)) (just m)) P
+  && forallb (fun m => forallb (fun m' =>
+        negb (f_rc r (main m) && f_rc r (main m') && (src (main m) =? src (main m')))
+        || ((pr (main m) =? pr (main m')) && N.eqb (pv (main m)) (pv (main m')))) P) P.
+
+Lemma pool_fresh_b_sound : forall P, pool_fresh_b P = true -> pool_fresh ld r P.
+Proof.
+  intros P H. unfold pool_fresh_b in H. rewrite !andb_true_iff in H. destruct H as [[[H1 H2] H3] H4].
+  rewrite forallb_forall in H1, H2, H3, H4. constructor.
+  - intros m Hm. apply negb_true_iff. auto.
+  - intros m b Hm Hb Ht. specialize (H2 m Hm). rewrite forallb_forall in H2. apply prep_wf_sound; auto.
+  - intros m b Hm Hb. specialize (H3 m Hm). rewrite forallb_forall in H3. apply negb_true_iff. auto.
+  - intros m m' Hm Hm' F1 F2 Hs. specialize (H4 m Hm). rewrite forallb_forall in H4. specialize (H4 m' Hm').
+    rewrite F1, F2, Hs, Nat.eqb_refl in H4. simpl in H4. apply andb_true_iff in H4. destruct H4 as [A B].
+    apply Nat.eqb_eq in A. apply N.eqb_eq in B. auto.
+Qed.
+
+Definition buf_fresh_b (P : list msg) (s : state) : bool :=
+  forallb prep_wf (flat (buffer s))
+  && forallb (fun m => forallb (fun b => negb (f_rc r b)) (just m)) (bufmsgs (buffer s))
+  && forallb (fun m => negb (f_rc r (main m))
+                       || (justified_roundchange (pp n fifo_ ld (ld r)) m && has_main_b P (main m))) (bufmsgs (buffer s)).
+
+Lemma buf_fresh_b_sound : forall P s, buf_fresh_b P s = true -> buf_fresh n fifo_ ld r P s.
+Proof.
+  intros P s H. unfold buf_fresh_b in H. rewrite !andb_true_iff in H. destruct H as [[H1 H2] H3].
+  rewrite forallb_forall in H1, H2, H3. constructor.
+  - intros b Hb Ht. apply prep_wf_sound; auto.
+  - intros m b Hm Hb. specialize (H2 m Hm). rewrite forallb_forall in H2. apply negb_true_iff. auto.
+  - intros m Hm Hf. specialize (H3 m Hm). rewrite Hf in H3. simpl in H3. apply andb_true_iff in H3.
+    destruct H3 as [A B]. split; [exact A | apply has_main_b_sound; exact B].
+Qed.
+
+Definition leader_fresh_b (P : list msg) (s : state) : bool :=
+  negb (N.eqb (input s) 0) && (cfr s =? 0) && negb (is_dup s QRC r)
+  && match ppj s with PNone => true | _ => false end
+  && pool_fresh_b P && buf_fresh_b P s.
+
+Lemma leader_fresh_b_sound : forall P s, leader_fresh_b P s = true -> leader_ok n fifo_ ld r P s.
+Proof.
+  intros P s H. unfold leader_fresh_b in H. rewrite !andb_true_iff in H.
+  destruct H as [[[[[H1 H2] H3] H4] H5] H6].
+  apply negb_true_iff in H1, H3. apply N.eqb_neq in H1. apply Nat.eqb_eq in H2. constructor; auto.
+  - intros _. split; [destruct (ppj s); try discriminate; reflexivity|].
+    split; [apply pool_fresh_b_sound; exact H5 | apply buf_fresh_b_sound; exact H6].
+  - intro Hx. congruence.
+Qed.
+
+Definition rcs_b (R : list nat) (P : list msg) : bool :=
+  forallb (fun i => existsb (fun m => f_rc r (main m) && (src (main m) =? i)
+                                      && justified_roundchange (pp n fifo_ ld (ld r)) m) P) R.
+
+Lemma rcs_b_sound : forall R P, rcs_b R P = true -> rcs_in_pool n fifo_ ld r R P.
+Proof.
+  intros R P H i Hi. unfold rcs_b in H. rewrite forallb_forall in H. specialize (H i Hi).
+  apply existsb_exists in H. destruct H as [m [M1 M2]]. rewrite !andb_true_iff in M2. destruct M2 as [[A B] C].
+  apply Nat.eqb_eq in B. exists m. auto.
+Qed.
+
+End Checkers.
+
+(* ------------------------------------------------------------------------------------------ *)
+(* Round 2 re-proposing a prepared value, with stale round-1 messages still in the pool:       *)
+(* in round 1 (leader 1, value 7) only process 0 got the three PREPAREs (it prepared 7 and sent  *)
+(* COMMIT), then everybody timed out; ROUND-CHANGE(2) of process 0 carries (pr, pv) = (1, 7) and *)
+(* its quorum of PREPAREs, the others are null; the leader of round 2 (process 2, own input 9)   *)
+(* must propose 7.                                                                               *)
+
+Definition leader_in2 : state := run_evs 2 (after_start 2) [EInput 9].
+
+Definition g3_pre : gcfg :=
+  mkg (fun i => if i =? 1 then leader_in 7 else if i =? 2 then leader_in2 else after_start i)
+      [pp1] (fun _ => []) [].
+
+(* PRE-PREPARE to everybody, the three PREPAREs to process 0 only, one PREPARE to process 1 *)
+Definition sched3_round1 : list (nat * nat) := [(0,0); (1,0); (2,0); (0,1); (0,2); (0,3); (1,1)].
+
+Definition g3_mid : gcfg := match gexec 4 64 ld4 R4 g3_pre sched3_round1 with Some g => g | None => g3_pre end.
+
+Definition tmo_oracle (s : state) : oracle :=
+  mko Nothing (first_per_src (f_trv Prepare (prepR s) (prepV s)) (prepJ s)) 0.
+
+Definition tmo (i : nat) (s : state) : state * list output :=
+  match fstep (pp 4 64 ld4 i) s ETimeout (tmo_oracle s) with Some x => x | None => (s, []) end.
+
+Definition g3_0 : gcfg :=
+  mkg (fun i => fst (tmo i (gst g3_mid i)))
+      (pool g3_mid ++ flat_map (fun i => bcasts (snd (tmo i (gst g3_mid i)))) R4)
+      (fun _ => []) [].
+
+(* a shuffled delivery of everything in the pool (stale round-1 messages included), then the round *)
+Definition sched3 : list (nat * nat) :=
+  [(0,5); (2,2); (2,6); (1,7); (0,7); (1,6); (2,7); (2,5); (0,6); (2,3); (1,5); (2,0); (1,0); (0,0); 
+   (1,1); (1,3); (0,3); (2,1); (0,2); (0,1); (2,4); (1,4); (0,4); (1,2); (0,8); (1,8); (2,8); (1,5); 
+   (1,9); (2,9); (2,10); (1,11); (2,11); (0,11); (1,10); (0,9); (0,10); (2,13); (1,13); (0,14); 
+   (0,12); (1,12); (0,13); (1,14); (2,12); (2,14)].
+
+Lemma qlen_le_bufmsgs : forall buf s, qlen buf s <= length (bufmsgs buf).
+Proof.
+  induction buf as [|[k qq] buf IH]; intro s; simpl; [lia|]. unfold bufmsgs. simpl. rewrite app_length.
+  fold (bufmsgs buf). specialize (IH s). destruct (k =? s); lia.
+Qed.
+
+(* fifo_ok from a coarse count: everything buffered at the start plus every delivery fits the FIFO *)
+Lemma fifo_ok_coarse : forall fifo_ R g0 g,
+  (forall i, In i R -> length (bufmsgs (buffer (gst g0 i))) + length (seen g i) <= fifo_) ->
+  fifo_ok fifo_ R g0 g.
+Proof.
+  intros fifo_ R g0 g H i s Hi. specialize (H i Hi).
+  pose proof (qlen_le_bufmsgs (buffer (gst g0 i)) s). pose proof (filter_length_le (from_src s) (seen g i)). lia.
+Qed.
+
+Definition g3_end : gcfg := match gexec 4 64 ld4 R4 g3_0 sched3 with Some g => g | None => g3_0 end.
+
+Example ex3_run : gexec 4 64 ld4 R4 g3_0 sched3 = Some g3_end.
+Proof. vm_compute. reflexivity. Qed.
+
+(* the leader's own input is 9, it proposes the prepared value 7 and everybody decides 7 *)
+Example ex3_decides :
+  input (gst g3_0 2) = 9%N
+  /\ gdecs g3_end = [(0, 7%N, 2); (1, 7%N, 2); (2, 7%N, 2)] /\ delivered_all_b R4 g3_end = true.
+Proof. vm_compute. repeat split; reflexivity. Qed.
+
+Example ex3_theorem_applies :
+  exists v, (forall i, In i R4 -> exists k, In (i, v, k) (gdecs g3_end))
+            /\ (forall i x k, In (i, x, k) (gdecs g3_end) -> x = v /\ k = 2).
+Proof.
+  apply (good_round_qrc 4 64 ld4 R4 2 (ltac:(lia)) g3_0 g3_end).
+  - repeat constructor; simpl; intuition discriminate.
+  - vm_compute. lia.
+  - vm_compute. auto.
+  - apply pool_ok_b_sound. vm_compute. reflexivity.
+  - intros i Hi. apply start_ok_b_sound. pattern i. apply in_R4; [| | |exact Hi]; vm_compute; reflexivity.
+  - apply leader_fresh_b_sound. vm_compute. reflexivity.
+  - apply rcs_b_sound. vm_compute. reflexivity.
+  - reflexivity.
+  - reflexivity.
+  - apply (gexec_sound 4 64 ld4 R4 sched3). exact ex3_run.
+  - apply delivered_all_b_sound. vm_compute. reflexivity.
+  - apply fifo_ok_coarse. intros i Hi. pattern i. apply in_R4; [| | |exact Hi]; vm_compute; lia.
 Qed.
